@@ -1,0 +1,14 @@
+//go:build !verif
+
+// Package simhook contains cooperative scheduling points for deterministic simulation.
+// Without the "verif" build tag every function is empty and gets inlined away.
+package simhook
+
+// Yield marks a point where the calling goroutine holds no lock and a simulator may suspend it.
+func Yield(point string) {}
+
+// Hit reports that a rarely executed branch has been reached.
+func Hit(point string) {}
+
+// Perm lets a simulator choose the processing order of n items collected from a map.
+func Perm(point string, n int) []int { return nil }
